@@ -50,6 +50,16 @@ func countOps(hist []hdr.Op, kinds ...string) int {
 	return n
 }
 
+func countResub(hist []hdr.Op, l string) int {
+	n := 0
+	for _, o := range hist {
+		if o.K == "sub" && o.L == l {
+			n++
+		}
+	}
+	return n
+}
+
 var maintKinds = []string{"clean", "cleand", "save", "reload", "reloadd"}
 
 // enabled lists the operations offered in the final state of a history.
@@ -117,6 +127,37 @@ func (sc *Scenario) enabled(w *hdr.World, hist []hdr.Op) []hdr.Op {
 	if countOps(hist, maintKinds...) < sc.M {
 		ops = append(ops, sc.Maint...)
 	}
+	if countOps(hist, "mark", "unmark", "markx") < sc.Marks {
+		for _, n := range w.Tree.Sorted() {
+			if n.Label != "G" {
+				ops = append(ops, hdr.Op{K: "mark", L: n.Label})
+			}
+		}
+		// a header not seen yet (pre-empt): the lowest unused child of the latest accepted header
+		if len(parents) > 0 {
+			l := parents[len(parents)-1] + "/a"
+			if !w.Submitted[l] && !w.IsMarkedLabel(l) {
+				ops = append(ops, hdr.Op{K: "mark", L: l})
+			}
+		}
+		if countOps(hist, "markx") == 0 {
+			ops = append(ops, hdr.Op{K: "markx", D: 1})
+		}
+		for _, l := range w.MarkedLabels {
+			ops = append(ops, hdr.Op{K: "unmark", L: l})
+			if len(ops) > 0 && !w.Submitted[l] {
+				continue
+			}
+		}
+	}
+	if sc.Marks > 0 {
+		// re-offer headers that were removed by marking or refused as marked (resubmission)
+		for _, l := range append(append([]string{}, w.Removed...), w.MarkedLabels...) {
+			if w.Tree.Get(hdr.RH(hdr.Get(l).Hash)) == nil && countResub(hist, l) < 2 {
+				ops = append(ops, hdr.Op{K: "sub", L: l})
+			}
+		}
+	}
 	if countOps(hist, "subscribe") < sc.Subs {
 		ops = append(ops, hdr.Op{K: "subscribe"})
 	}
@@ -148,6 +189,10 @@ func (sc *Scenario) run(prop string, hist []hdr.Op) mc.Result[hdr.Op] {
 		st = w.Apply(hist[n-1])
 		c.st = st
 	}
+	// state key and enabled operations are taken before the post-oracles run: some of them
+	// continue to operate on this (throw-away) world
+	key := w.Key()
+	next := sc.enabled(w, hist)
 	for _, o := range sc.oracles {
 		if len(c.vs) > 0 {
 			break
@@ -157,8 +202,8 @@ func (sc *Scenario) run(prop string, hist []hdr.Op) mc.Result[hdr.Op] {
 	r := mc.Result[hdr.Op]{Violations: c.vs, Checks: c.n, Counters: c.counters}
 	r.Outcomes = outcomes(w, st)
 	if len(c.vs) == 0 {
-		r.Key = w.Key()
-		r.Next = sc.enabled(w, hist)
+		r.Key = key
+		r.Next = next
 	}
 	return r
 }
